@@ -82,10 +82,25 @@ func openNode(dir string) error {
 	if _, err := os.Stat(filepath.Join(dir, "raft.db")); err == nil {
 		fresh = false
 	}
+	// keep the raft address across restarts (the configuration names it; the
+	// install op needs other nodes to reach this one)
+	addrFile := filepath.Join(filepath.Dir(dir), "raftaddr")
+	if b, err := os.ReadFile(addrFile); err == nil && !fresh {
+		o.RaftAddr = string(b)
+	}
 	n, err := hcluster.NewNode(wcl.Net, o)
+	for i := 0; err != nil && o.RaftAddr != "" && i < 40; i++ {
+		time.Sleep(100 * time.Millisecond)
+		n, err = hcluster.NewNode(wcl.Net, o)
+	}
+	if err != nil && o.RaftAddr != "" {
+		o.RaftAddr = ""
+		n, err = hcluster.NewNode(wcl.Net, o)
+	}
 	if err != nil {
 		return err
 	}
+	os.WriteFile(addrFile, []byte(n.RaftAddr), 0644)
 	wnode = n
 	wcl.Nodes = append(wcl.Nodes, n)
 	if fresh {
@@ -229,6 +244,8 @@ func doOp(op string, arg int) (note string, err error) {
 	case "reap":
 		_, _, err := s.Reap()
 		return "", err
+	case "install":
+		return doInstall(arg)
 	case "restart", "restart-snap":
 		s.NoSnapshotOnClose = op == "restart"
 		if err := wnode.Close(); err != nil {
@@ -411,18 +428,21 @@ type seqResult struct {
 	Diff      string `json:"diff,omitempty"`
 	Inconcl   string `json:"inconclusive,omitempty"`
 	Skipped   int    `json:"persist_skipped"`
+	Installs  int    `json:"snapshots_installed"`
 	Died      int    `json:"process_exits_by_design"`
 	MaxStaged int    `json:"max_staged_wals"`
 }
 
 var alphabet = []string{"write-small", "write-small", "write-heavy", "write-heavy", "snapshot", "snapshot", "ghost-join", "ghost-remove",
-	"snapshot-close-fails-early", "snapshot-close-fails-late", "load", "boot", "reap", "restart", "restart-snap"}
+	"snapshot-close-fails-early", "snapshot-close-fails-late", "load", "boot", "reap", "restart", "restart-snap", "install"}
 
 func genSeq(c *vf.Ctx, i int) []step {
 	r := c.Rand(uint64(i))
 	n := c.N(12, 20)
 	steps := []step{{Op: "write-small", Arg: 0}, {Op: "snapshot"}}
 	motifs := [][]string{
+		// a staged WAL that never reached the store, then a snapshot installed from a Leader
+		{"write-heavy", "snapshot", "write-heavy", "ghost-join", "write-heavy", "install", "write-small", "snapshot", "write-heavy", "snapshot"},
 		{"write-heavy", "ghost-join", "write-heavy", "load", "write-small", "snapshot", "write-heavy", "snapshot"},
 		{"write-heavy", "ghost-join", "write-heavy", "boot", "write-small", "snapshot", "write-heavy", "snapshot"},
 		{"write-heavy", "ghost-join", "write-heavy", "snapshot", "write-heavy", "ghost-remove", "snapshot"},
@@ -437,6 +457,9 @@ func genSeq(c *vf.Ctx, i int) []step {
 		// a load applied by a freshly restarted process
 		{"write-small", "snapshot", "restart", "load", "write-small", "snapshot", "write-heavy", "snapshot"},
 		{"write-small", "snapshot", "restart-snap", "load", "write-heavy", "snapshot"},
+		// snapshot installs without and with a restart / reap around them
+		{"write-heavy", "snapshot", "write-heavy", "install", "write-heavy", "snapshot", "reap", "write-small", "snapshot"},
+		{"write-heavy", "ghost-join", "install", "restart", "write-small", "snapshot", "install", "write-heavy", "snapshot"},
 	}
 	var motif []string
 	at := -1
@@ -466,10 +489,14 @@ func classify(steps []step) string {
 			}
 		case "load", "boot", "snapshot-close-fails-early", "snapshot-close-fails-late", "reap", "restart", "restart-snap":
 			seen[s.Op] = true
+		case "install":
+			if s.Note == "installed" {
+				seen["install"] = true
+			}
 		}
 	}
 	var ks []string
-	for _, k := range []string{"skipped-persist", "snapshot-close-fails-early", "snapshot-close-fails-late", "load", "boot", "reap", "restart", "restart-snap"} {
+	for _, k := range []string{"skipped-persist", "install", "snapshot-close-fails-early", "snapshot-close-fails-late", "load", "boot", "reap", "restart", "restart-snap"} {
 		if seen[k] {
 			ks = append(ks, k)
 		}
@@ -546,6 +573,9 @@ func runSeq(c *vf.Ctx, tmp string, i int, steps []step) (res seqResult) {
 			if r.Note == "persist skipped" {
 				res.Skipped++
 			}
+			if st.Op == "install" && r.Note == "installed" {
+				res.Installs++
+			}
 			if !r.OK {
 				if st.Op == "restart" || st.Op == "restart-snap" {
 					res.Problem = fmt.Sprintf("op %s failed: %s", st.Op, r.Err)
@@ -570,7 +600,7 @@ func runSeq(c *vf.Ctx, tmp string, i int, steps []step) (res seqResult) {
 			return
 		}
 		if v.Err != "" {
-			res.Inconcl = fmt.Sprintf("verify after %s: %s", st.Op, v.Err)
+			res.Inconcl = fmt.Sprintf("verify after %s: %s (op note: %s)", st.Op, v.Err, cur.Note)
 			return
 		}
 		res.Verifies++
@@ -579,9 +609,8 @@ func runSeq(c *vf.Ctx, tmp string, i int, steps []step) (res seqResult) {
 }
 
 func run(c *vf.Ctx) {
-	c.Rule("sequence = write-small, snapshot, then 12 (quick) / 20 (thorough) seeded ops (every second sequence with one of 12 directed motifs spliced in, e.g. page-heavy write, skipped persist, page-heavy write, load, write, snapshot, write, snapshot) over {small write batch, page-heavy batch overwriting earlier pages in several tables, user snapshot, join of an unreachable non-voter followed at once by a snapshot (Raft then skips Persist and rqlite keeps the staged WAL), remove it, snapshot whose sink Close is made to fail before the staged WAL is consumed, snapshot whose sink Close fails after (process exits by design, worker restarted), load, boot, reap, restart with and without snapshot-on-close} on a real single-node Store; after EVERY op the raft directory is copied without db.sqlite*, clean_snapshot and the WAL staging dir, a fresh Store is opened on the copy (restore newest snapshot, replay log) and its logical dump must equal the live database's. non-trivial = sequence that contained a skipped persist, a failed close, a load/boot or a reap; distinct by op sequence")
-	c.Assume("follower snapshot install is exercised in C22/C01 (late joiner), not here")
-	nSeq := c.N(10, 160)
+	c.Rule("sequence = write-small, snapshot, then 12 (quick) / 20 (thorough) seeded ops (every second sequence with one of 15 directed motifs spliced in, e.g. page-heavy write, skipped persist, page-heavy write, load, write, snapshot, write, snapshot) over {small write batch, page-heavy batch overwriting earlier pages in several tables, user snapshot, join of an unreachable non-voter followed at once by a snapshot (Raft then skips Persist and rqlite keeps the staged WAL), remove it, snapshot whose sink Close is made to fail before the staged WAL is consumed, snapshot whose sink Close fails after (process exits by design, worker restarted), load, boot, reap, restart with and without snapshot-on-close, snapshot install (two helper voters join, one takes over leadership, the node under test is cut off while the helper Leader overwrites pages and truncates its log with a snapshot, the link heals so that the node under test installs that snapshot as a lagging follower, then leadership is handed back and the helpers are removed)} on a real Store that is a single-node cluster between ops; after EVERY op the raft directory is copied without db.sqlite*, clean_snapshot and the WAL staging dir, a fresh Store is opened on the copy (restore newest snapshot, replay log) and its logical dump must equal the live database's. non-trivial = sequence that contained a skipped persist, a failed close, a load/boot or a reap; distinct by op sequence")
+	nSeq := c.N(12, 160)
 	tmp := vf.TempDir("c04")
 	defer os.RemoveAll(tmp)
 	if c.ReplayFile != "" {
@@ -629,6 +658,7 @@ func run(c *vf.Ctx) {
 		c.Eval(1)
 		c.Count("verifications", int64(res.Verifies))
 		c.Count("persist_skipped", int64(res.Skipped))
+		c.Count("snapshots_installed_from_a_leader", int64(res.Installs))
 		c.Count("designed_process_exits", int64(res.Died))
 		if res.MaxStaged > 1 {
 			c.Count("sequences_with_multiple_staged_wals", 1)
